@@ -1,4 +1,6 @@
 import AmVerif.Lemmas.TopoGraph
+import AmVerif.Lemmas.Converge
+import AmVerif.Model.History
 import AmVerif.Lemmas.World
 import AmVerif.Gen.Tables
 /-!
@@ -11,10 +13,17 @@ walks is the exact inverse of the recorded dependencies at all times; a successf
 re-learns the dependency set, a failed one keeps value and dependencies and adds what the failed
 attempt read; events for entries the graph does not know are dropped, all others are kept; events
 sent before `hot_reload` are taken before the update (skeleton of the thread loop).
-**Partial**: the semantic convergence statement ("the cached value equals a fresh load") is decided
-by the correspondence + oracle (`freshall`), not yet by a theorem; known finding F-C05d (an asset
-first loaded *during* a pass) is a counterexample to the unrestricted statement on the current
-tree and is listed in known_findings.json.
+**Semantic convergence** ("the cached value equals a fresh load") is proved for one update pass
+(`C05_pass_converges_partial`, `C05_hot_reload_converges_partial`) from read-set determinacy
+(`C05_read_set_determinacy`): after the pass every registered cached asset is `Settled` — it holds
+what re-evaluating its loader against the new source and the current cache returns, and its node
+holds what that evaluation reads. **Partial**: the unrestricted statement is false of the code and of
+the model in the two order-dependent situations recorded as known findings; they are excluded by
+named hypotheses (`NoMissInPass` for F-C05d, `NoRewireOntoPending` for F-C05e) and each is shown to be
+necessary by a concrete counterexample (`C05_full_statement_false_miss`,
+`C05_full_statement_false_rewire`). Reads under `no_record`, on helper threads, inside
+`catch_unwind(no_record(..))` and through `load_owned` are outside the statement (a tracked hit-only
+run meets none of them), as are assets of types that are not hot-reloaded.
 -/
 namespace AmVerif.Props.C05
 open AmVerif.Gen AmVerif.Model AmVerif.Lemmas.TopoGraph AmVerif.Lemmas.Topo
@@ -120,6 +129,486 @@ theorem C05_failed_reload_keeps (env : Env) (fuel : Nat) (s : St) (key : Key) (c
   refine ⟨?_, by first | rfl | trivial⟩
   have := hmono key c (by simpa [St.lookup] using hc)
   simpa [St.lookup] using this
+
+/-! ## Semantic convergence of one update pass -/
+
+/-- **Read-set determinacy of a reload** (the core lemma, `Lemmas/ReadSet.lean`): if re-evaluating
+the loader of `key` under `(env, s)` is a tracked hit-only run — plain constructors on its path,
+every `.load` a hit, every look-up recorded — and `(env', t)` agrees with `(env, s)` on every entry it
+records (same file / directory content, same cached value or absent in both), then re-evaluating it
+under `(env', t)` is a tracked hit-only run with the same outcome and the same record. -/
+theorem C05_read_set_determinacy (env env' : Env) (hS : env.Steady) (hS' : env'.Steady) (hL : SameLoaders env env')
+    (fuel : Nat) (s t : St) (key : Key) (hh : reloadHit env fuel s key = true)
+    (hag : ∀ d ∈ reloadDeps env fuel s key, AgreeOn env env' s t d) :
+    reloadHit env' fuel t key = true ∧ reloadOut env' fuel t key = reloadOut env fuel s key ∧
+    reloadDeps env' fuel t key = reloadDeps env fuel s key ∧
+    (reloadEval env fuel s key).1.map = s.map ∧ (reloadEval env' fuel t key).1.map = t.map := by
+  obtain ⟨h1, h2, h3⟩ := reloadEval_readset hS hS' hL fuel s t key hh hag
+  exact ⟨h1, h2, h3, reloadHit_map hh, reloadHit_map h1⟩
+
+/-- **Processing one key of a pass** keeps the invariant `PInv` (assets that are not pending are
+settled under the new source and read no pending asset; pending assets still have the dependencies
+the list was sorted with). -/
+theorem C05_pass_step (env' : Env) (hS' : env'.Steady) (fuel : Nat) (g0 : Graph) (k : Key) (rest : List Key)
+    (s : St) (r : RSt)
+    (hinv : PInv env' fuel g0 (k :: rest) s r.graph) (hdead : r.dead = false)
+    (hnd : (k :: rest).Nodup) (hord : DepsFirst g0 (k :: rest))
+    (hmiss : NoMissInPass env' fuel [⟨k, rest, s, r⟩])
+    (hret : ReloadsReturn env' fuel [⟨k, rest, s, r⟩])
+    (hrewire : NoRewireOntoPending env' fuel [⟨k, rest, s, r⟩]) :
+    PInv env' fuel g0 rest (reloadAll env' fuel [k] (s, r)).1 (reloadAll env' fuel [k] (s, r)).2.graph ∧
+    (reloadAll env' fuel [k] (s, r)).2.dead = false ∧ (reloadAll env' fuel [k] (s, r)).1.out = s.out :=
+  pinv_step hS' hinv hdead hnd hord (hmiss _ List.mem_cons_self) (hret _ List.mem_cons_self)
+    (hrewire _ List.mem_cons_self)
+
+
+/-- **One update pass converges** (partial: the two situations in which the full statement is
+false are excluded by the named hypotheses `hmiss` and `hrewire`).
+
+Setting: `env` is the source before the edits, `env'` after; both without fault plan (`Steady`),
+same loaders (`SameLoaders`). `s`, `r` are the cache and the reloader's data when `run_update`
+starts (messages drained, events taken into `r.toReload`).
+
+Hypotheses:
+* `hset` — before the edits everything was settled: every registered, cached, dynamic asset holds
+  what re-evaluating its loader against `env` and the cache gives (or that re-evaluation fails),
+  the evaluation being a tracked hit-only run whose reads are the node's dependencies;
+* `hG`, `hrank` — the graph's `rdeps` is the inverse of `deps`, and look-ups are acyclic;
+* `hlive`, `hfuel` — the reloader is alive and the sort has enough fuel;
+* `hfile`, `hdir` — `env'` differs from `env` only on entries of `changed`;
+* `hnotified` — every changed entry the graph knows has been notified (is in `r.toReload`);
+* `hmiss` — **excludes F-C05d**: every re-evaluation of this pass is a tracked hit-only run: on its
+  path only `ret / fail / panic / read / readDir / getCached / load / tick` (no `loadOwned`, no
+  unrecorded reads under `noRecord` / `onThread` / `tryCatch`), every look-up recorded (hot type),
+  and no `.load` of an asset that is not cached yet;
+* `hret` — every re-evaluation of this pass returns a value or an error (a panic is caught and
+  leaves the graph without the new dependencies; exhausted fuel kills the thread);
+* `hrewire` — **excludes F-C05e**: no re-evaluation of this pass acquires a NEW dependency on the
+  asset itself or on an asset that is reloaded LATER in this pass. (Old dependencies are never
+  reloaded later: `C05_deps_before_dependents`.)
+
+Conclusion: after the pass every registered, cached, dynamic asset holds exactly what re-evaluating
+its loader against the new source and the current cache returns (or that re-evaluation fails and the
+entry kept its previous value), and the graph holds exactly what that evaluation reads (for a failing
+one: at least what it reads); the reloader is alive; the pass sent no message to the reloader (no
+asset was registered behind the sort's back). -/
+theorem C05_pass_converges_partial (env env' : Env) (fuel : Nat) (s : St) (r : RSt) (changed : List Dep)
+    {rank : Dep → Nat}
+    (hS : env.Steady) (hS' : env'.Steady) (hL : SameLoaders env env')
+    (hset : Settled env fuel s r.graph) (hG : GraphOK r.graph)
+    (hrank : ∀ a rs b, r.graph.rdepsOf a = some rs → b ∈ rs → rank b < rank a)
+    (hlive : r.dead = false) (hfuel : r.graph.length + 1 ≤ fuel)
+    (hfile : ∀ id ext, Dep.file id ext ∉ changed → env'.read 0 id ext = env.read 0 id ext)
+    (hdir : ∀ id, Dep.dir id ∉ changed → env'.readDir 0 id = env.readDir 0 id)
+    (hnotified : ∀ d, d ∈ changed → r.graph.get d ≠ none → d ∈ r.toReload)
+    (hmiss : NoMissInPass env' fuel (updateSteps env' fuel s r))
+    (hret : ReloadsReturn env' fuel (updateSteps env' fuel s r))
+    (hrewire : NoRewireOntoPending env' fuel (updateSteps env' fuel s r)) :
+    Settled env' fuel (runUpdate env' fuel s r).1 (runUpdate env' fuel s r).2.graph ∧
+    (runUpdate env' fuel s r).2.dead = false ∧ (runUpdate env' fuel s r).1.out = s.out := by
+  obtain ⟨keys, hk⟩ := topo_terminates r.graph fuel hfuel r.toReload
+  unfold updateSteps at hmiss hret hrewire
+  rw [hk] at hmiss hret hrewire
+  unfold runUpdate
+  rw [hk]
+  exact reloadAll_converges hS' keys s { r with toReload := [] }
+    (pinv_init hS hS' hL hset hG.1 hk hfile hdir hnotified) hlive (topo_nodup hk)
+    (depsFirst_of_topo hG.1 hrank hk) hmiss hret hrewire
+
+/-- A pass keeps the dependency index exact (whatever the reloads do): so the conclusion of
+`C05_pass_converges_partial`, together with this, re-establishes `hset`, `hG`, `hlive` and the
+drained channel for the next pass. -/
+theorem C05_reloadAll_keeps_graphOK (env : Env) (fuel : Nat) :
+    ∀ (keys : List Key) (s : St) (r : RSt), GraphOK r.graph → GraphOK (reloadAll env fuel keys (s, r)).2.graph := by
+  intro keys
+  induction keys with
+  | nil => intro s r h; exact h
+  | cons k ks ih =>
+    intro s r h
+    simp only [reloadAll]
+    split
+    · exact h
+    · cases hg : r.graph.get (.asset k) with
+      | none => exact ih s r h
+      | some node =>
+        simp only []
+        split
+        · generalize reloadUntyped env fuel s k = y
+          obtain ⟨s1, o⟩ := y
+          cases o with
+          | died => exact h
+          | done d =>
+            cases d with
+            | none => exact ih s1 r h
+            | some p =>
+              obtain ⟨deps, b⟩ := p
+              cases b with
+              | false => exact ih s1 _ (C05_add_deps_keeps_inverse _ h _ _ (by rw [hg]; simp))
+              | true => exact ih s1 _ (C05_insert_keeps_inverse _ h _ _)
+        · exact ih s r h
+
+theorem C05_pass_keeps_graphOK (env : Env) (fuel : Nat) (s : St) (r : RSt) (h : GraphOK r.graph) :
+    GraphOK (runUpdate env fuel s r).2.graph := by
+  unfold runUpdate
+  split
+  · exact h
+  · exact C05_reloadAll_keeps_graphOK env fuel _ s _ h
+
+theorem C05_handleEvents_keeps_graphOK (env : Env) (fuel : Nat) (s : St) (r : RSt) (evs : List Dep)
+    (h : GraphOK r.graph) : GraphOK (handleEvents env fuel s r evs).2.graph := by
+  unfold handleEvents
+  split
+  · exact h
+  · simp only []
+    split
+    · exact C05_processMsgs_graphOK _ _ (C05_pass_keeps_graphOK _ _ _ _ (C05_processMsgs_graphOK s r h))
+    · exact C05_processMsgs_graphOK s r h
+
+theorem C05_hotReload_keeps_graphOK (env : Env) (fuel : Nat) (s : St) (r : RSt)
+    (h : GraphOK r.graph) : GraphOK (hotReload env fuel s r).2.graph := by
+  unfold hotReload
+  split
+  · exact h
+  · simp only []
+    split
+    · exact C05_processMsgs_graphOK s r h
+    · exact C05_processMsgs_graphOK _ _ (C05_pass_keeps_graphOK _ _ _ _ (C05_processMsgs_graphOK s r h))
+
+theorem C05_enhance_keeps_graphOK (env : Env) (fuel : Nat) (s : St) (r : RSt)
+    (h : GraphOK r.graph) : GraphOK (enhance env fuel s r).2.graph := by
+  unfold enhance
+  split
+  · exact h
+  · simp only []
+    split
+    · exact C05_processMsgs_graphOK s r h
+    · exact C05_processMsgs_graphOK _ _ (C05_pass_keeps_graphOK _ _ _ _ (C05_processMsgs_graphOK s r h))
+
+/-- **The dependency index is exact in every reachable state** of a cache with its reloader. -/
+theorem C05_history_keeps_graphOK (fuel : Nat) (h : List (Env × HOp)) (x : St × RSt)
+    (hx : GraphOK x.2.graph) : GraphOK (runH fuel h x).2.graph := by
+  induction h generalizing x with
+  | nil => exact hx
+  | cons e es ih =>
+    simp only [runH]
+    apply ih
+    obtain ⟨env, op⟩ := e
+    obtain ⟨s, r⟩ := x
+    cases op with
+    | api op => exact hx
+    | notify evs => exact C05_handleEvents_keeps_graphOK env fuel s r evs hx
+    | hotReload => exact C05_hotReload_keeps_graphOK env fuel s r hx
+    | enhance => exact C05_enhance_keeps_graphOK env fuel s r hx
+
+/-- **`hot_reload()` converges** (local mode, no pending `AddAsset` messages): the same statement for
+the whole request — drain the messages, run the pass, drain the messages the pass produced (none,
+under `hmiss`). The hypotheses are those of `C05_pass_converges_partial`. -/
+theorem C05_hot_reload_converges_partial (env env' : Env) (fuel : Nat) (s : St) (r : RSt) (changed : List Dep)
+    {rank : Dep → Nat}
+    (hS : env.Steady) (hS' : env'.Steady) (hL : SameLoaders env env')
+    (hset : Settled env fuel s r.graph) (hG : GraphOK r.graph)
+    (hrank : ∀ a rs b, r.graph.rdepsOf a = some rs → b ∈ rs → rank b < rank a)
+    (hlive : r.dead = false) (hfuel : r.graph.length + 1 ≤ fuel)
+    (hdrained : s.out = []) (hlocal : r.static_ = false)
+    (hfile : ∀ id ext, Dep.file id ext ∉ changed → env'.read 0 id ext = env.read 0 id ext)
+    (hdir : ∀ id, Dep.dir id ∉ changed → env'.readDir 0 id = env.readDir 0 id)
+    (hnotified : ∀ d, d ∈ changed → r.graph.get d ≠ none → d ∈ r.toReload)
+    (hmiss : NoMissInPass env' fuel (updateSteps env' fuel s r))
+    (hret : ReloadsReturn env' fuel (updateSteps env' fuel s r))
+    (hrewire : NoRewireOntoPending env' fuel (updateSteps env' fuel s r)) :
+    Settled env' fuel (hotReload env' fuel s r).1 (hotReload env' fuel s r).2.graph ∧
+    (hotReload env' fuel s r).2.dead = false := by
+  obtain ⟨h1, h2, h3⟩ := C05_pass_converges_partial env env' fuel s r changed hS hS' hL hset hG hrank hlive hfuel
+    hfile hdir hnotified hmiss hret hrewire
+  have e : hotReload env' fuel s r = runUpdate env' fuel s r := by
+    unfold hotReload
+    simp only [hlive, processMsgs_nil s r hdrained, hlocal, Bool.false_eq_true, if_false]
+    exact processMsgs_nil _ _ (h3.trans hdrained)
+  rw [e]
+  exact ⟨h1, h2⟩
+
+/-! ## Concrete instances: non-vacuity, and the two refutations of the unrestricted statement -/
+
+/-- scripts of a tiny asset type, as bytes: `[n]` is the script `n`, `[n, 0]` is `n +S0:e`,
+`[n, _]` is `n +S0:n` -/
+def exToks : List UInt8 → Option (List Tok)
+  | [n] => some [.lit n.toNat]
+  | [n, t] => some [.lit n.toNat, .load 0 (if t = 0 then "e" else "n")]
+  | _ => none
+
+/-- read `id.s`, interpret the script (`scriptProg` of `Model/Types.lean`) -/
+def exProg (id : String) : Prog :=
+  .read id "s" fun r =>
+    match r with
+    | .error e => .fail (.io e)
+    | .ok bytes =>
+      match exToks bytes with
+      | none => .fail (.custom "parse")
+      | some toks => scriptProg toks 0
+
+/-- a source with the files `b.s`, `e.s` and `n.s` (always the script `0 +S0:e`); one hot-reloaded
+type; a cache with reloader -/
+def exEnv (b e : List UInt8) : Env :=
+  { read := fun _ id ext =>
+      if id = "b" ∧ ext = "s" then .ok b
+      else if id = "e" ∧ ext = "s" then .ok e
+      else if id = "n" ∧ ext = "s" then .ok [0, 0]
+      else .error ⟨true, "NotFound", id⟩
+    readDir := fun _ _ => .ok []
+    types := fun _ => { hot := true, prog := exProg }
+    hasReloader := true }
+
+def kb : Key := ⟨0, "b"⟩
+def ke : Key := ⟨0, "e"⟩
+
+theorem exEnv_steady (b e : List UInt8) : (exEnv b e).Steady := ⟨fun _ _ _ _ => rfl, fun _ _ _ => rfl, fun _ _ => rfl⟩
+theorem exEnv_same (b e b' e' : List UInt8) : SameLoaders (exEnv b e) (exEnv b' e') := ⟨rfl, rfl, fun _ _ => rfl⟩
+
+/-- files rank above assets -/
+def exRank : Dep → Nat
+  | .asset k => if k = kb then 0 else 1
+  | _ => 2
+
+/-- a cache holding `e` and `b` with the given values -/
+def exSt (vb ve : Int) : St :=
+  { map := [(ke, ⟨.int ve, true, 0, false, 0⟩), (kb, ⟨.int vb, true, 0, false, 1⟩)], next := 2 }
+
+/-- `b = 1 +S0:e`, `e = 10`, both loaded; `e.s` has been edited and notified -/
+def exChain : RSt :=
+  { graph := (Graph.insertAsset [] (.asset ke) [.file "e" "s"]).insertAsset (.asset kb) [.file "b" "s", .asset ke],
+    toReload := [.file "e" "s"] }
+
+theorem exChain_graphOK : GraphOK exChain.graph :=
+  C05_insert_keeps_inverse _ (C05_insert_keeps_inverse [] graphOK_nil (.asset ke) [.file "e" "s"]) (.asset kb)
+    [.file "b" "s", .asset ke]
+
+theorem exEnv_unchanged_e (b e e' : List UInt8) :
+    ∀ id ext, Dep.file id ext ∉ [Dep.file "e" "s"] → (exEnv b e').read 0 id ext = (exEnv b e).read 0 id ext := by
+  intro id ext h
+  simp only [exEnv]
+  split
+  · rfl
+  · split
+    · rename_i h2; exact absurd (by rw [h2.1, h2.2]; exact List.mem_singleton.mpr rfl) h
+    · rfl
+
+/-- **Non-vacuity** of `C05_pass_converges_partial`: the chain `b → e`, `e.s` edited from `10` to
+`20`: all hypotheses hold; the computed pass gives `e = 20`, `b = 21`. -/
+example :
+    Settled (exEnv [1, 0] [20]) 10 (runUpdate (exEnv [1, 0] [20]) 10 (exSt 11 10) exChain).1
+      (runUpdate (exEnv [1, 0] [20]) 10 (exSt 11 10) exChain).2.graph ∧
+    (runUpdate (exEnv [1, 0] [20]) 10 (exSt 11 10) exChain).2.dead = false ∧
+    (runUpdate (exEnv [1, 0] [20]) 10 (exSt 11 10) exChain).1.out = [] :=
+  C05_pass_converges_partial (exEnv [1, 0] [10]) (exEnv [1, 0] [20]) 10 (exSt 11 10) exChain [.file "e" "s"]
+    (rank := exRank) (exEnv_steady _ _) (exEnv_steady _ _) (exEnv_same _ _ _ _)
+    (settled_of_check (by decide)) exChain_graphOK (rank_of_entries (by decide)) rfl (by decide)
+    (exEnv_unchanged_e _ _ _)
+    (fun _ _ => rfl) (by decide)
+    (noMiss_of_check (by decide)) (reloadsReturn_of_check (by decide)) (noRewire_of_check (by decide))
+
+/-- the conclusion, checked on the computed pass -/
+example :
+    (runUpdate (exEnv [1, 0] [20]) 10 (exSt 11 10) exChain).1.lookup ke = some ⟨.int 20, true, 1, true, 0⟩ ∧
+    (runUpdate (exEnv [1, 0] [20]) 10 (exSt 11 10) exChain).1.lookup kb = some ⟨.int 21, true, 1, true, 1⟩ ∧
+    settledB (exEnv [1, 0] [20]) 10 (runUpdate (exEnv [1, 0] [20]) 10 (exSt 11 10) exChain).1
+      (runUpdate (exEnv [1, 0] [20]) 10 (exSt 11 10) exChain).2.graph = true := by decide
+
+/-- the same starting from a real history: `load b` (which loads `e`), `hot_reload` (drains the two
+registrations), then `e.s` is edited and the event is handed to the reloader -/
+def exHist : St × RSt :=
+  runH 10 [(exEnv [1, 0] [10], .api (.load kb)), (exEnv [1, 0] [10], .hotReload),
+    (exEnv [1, 0] [20], .notify [.file "e" "s"])] ({}, {})
+
+example :
+    Settled (exEnv [1, 0] [20]) 10 (hotReload (exEnv [1, 0] [20]) 10 exHist.1 exHist.2).1
+      (hotReload (exEnv [1, 0] [20]) 10 exHist.1 exHist.2).2.graph ∧
+    (hotReload (exEnv [1, 0] [20]) 10 exHist.1 exHist.2).2.dead = false :=
+  C05_hot_reload_converges_partial (exEnv [1, 0] [10]) (exEnv [1, 0] [20]) 10 exHist.1 exHist.2 [.file "e" "s"]
+    (rank := exRank) (exEnv_steady _ _) (exEnv_steady _ _) (exEnv_same _ _ _ _)
+    (settled_of_check (by decide)) (C05_history_keeps_graphOK 10 _ _ graphOK_nil) (rank_of_entries (by decide))
+    (by decide) (by decide) (by decide) (by decide)
+    (fun id ext h => exEnv_unchanged_e _ _ _ id ext h)
+    (fun _ _ => rfl) (by decide)
+    (noMiss_of_check (by decide)) (reloadsReturn_of_check (by decide)) (noRewire_of_check (by decide))
+
+example :
+    (hotReload (exEnv [1, 0] [20]) 10 exHist.1 exHist.2).1.lookup ke = some ⟨.int 20, true, 1, true, 0⟩ ∧
+    (hotReload (exEnv [1, 0] [20]) 10 exHist.1 exHist.2).1.lookup kb = some ⟨.int 21, true, 1, true, 1⟩ := by decide
+
+/-- **The failure branch is inhabited, and the asset recovers**: `e.s` is edited to something that
+does not parse (`[1, 2, 3]`), notified, `hot_reload`: `e` keeps `10`, `b` keeps `11`, everything is
+settled (`e` through the failure branch). Then `e.s` is repaired to `30` and notified. -/
+def exHistBroken : St × RSt :=
+  runH 10 [(exEnv [1, 0] [1, 2, 3], .hotReload), (exEnv [1, 0] [30], .notify [.file "e" "s"])] exHist
+
+/-- the pass over the broken file satisfies the hypotheses; `e` keeps its previous value -/
+example :
+    (Settled (exEnv [1, 0] [1, 2, 3]) 10 (hotReload (exEnv [1, 0] [1, 2, 3]) 10 exHist.1 exHist.2).1
+      (hotReload (exEnv [1, 0] [1, 2, 3]) 10 exHist.1 exHist.2).2.graph ∧
+     (hotReload (exEnv [1, 0] [1, 2, 3]) 10 exHist.1 exHist.2).2.dead = false) ∧
+    (hotReload (exEnv [1, 0] [1, 2, 3]) 10 exHist.1 exHist.2).1.lookup ke = some ⟨.int 10, true, 0, false, 0⟩ ∧
+    reloadOut (exEnv [1, 0] [1, 2, 3]) 10 (hotReload (exEnv [1, 0] [1, 2, 3]) 10 exHist.1 exHist.2).1 ke =
+      .err (.custom "parse") :=
+  ⟨C05_hot_reload_converges_partial (exEnv [1, 0] [10]) (exEnv [1, 0] [1, 2, 3]) 10 exHist.1 exHist.2 [.file "e" "s"]
+    (rank := exRank) (exEnv_steady _ _) (exEnv_steady _ _) (exEnv_same _ _ _ _)
+    (settled_of_check (by decide)) (C05_history_keeps_graphOK 10 _ _ graphOK_nil) (rank_of_entries (by decide))
+    (by decide) (by decide) (by decide) (by decide)
+    (exEnv_unchanged_e _ _ _) (fun _ _ => rfl) (by decide)
+    (noMiss_of_check (by decide)) (reloadsReturn_of_check (by decide)) (noRewire_of_check (by decide)),
+   by decide, by decide⟩
+
+/-- the next pass (file repaired) satisfies the hypotheses again — `hset` now holds through the
+failure branch for `e` — and the assets recover: `e = 30`, `b = 31` -/
+example :
+    (Settled (exEnv [1, 0] [30]) 10 (hotReload (exEnv [1, 0] [30]) 10 exHistBroken.1 exHistBroken.2).1
+      (hotReload (exEnv [1, 0] [30]) 10 exHistBroken.1 exHistBroken.2).2.graph ∧
+     (hotReload (exEnv [1, 0] [30]) 10 exHistBroken.1 exHistBroken.2).2.dead = false) ∧
+    (hotReload (exEnv [1, 0] [30]) 10 exHistBroken.1 exHistBroken.2).1.lookup ke = some ⟨.int 30, true, 1, true, 0⟩ ∧
+    (hotReload (exEnv [1, 0] [30]) 10 exHistBroken.1 exHistBroken.2).1.lookup kb = some ⟨.int 31, true, 2, true, 1⟩ :=
+  ⟨C05_hot_reload_converges_partial (exEnv [1, 0] [1, 2, 3]) (exEnv [1, 0] [30]) 10 exHistBroken.1 exHistBroken.2
+    [.file "e" "s"]
+    (rank := exRank) (exEnv_steady _ _) (exEnv_steady _ _) (exEnv_same _ _ _ _)
+    (settled_of_check (by decide)) (C05_history_keeps_graphOK 10 _ _ (C05_history_keeps_graphOK 10 _ _ graphOK_nil)) (rank_of_entries (by decide))
+    (by decide) (by decide) (by decide) (by decide)
+    (exEnv_unchanged_e _ _ _) (fun _ _ => rfl) (by decide)
+    (noMiss_of_check (by decide)) (reloadsReturn_of_check (by decide)) (noRewire_of_check (by decide)),
+   by decide, by decide⟩
+
+/-- `b = 1`, `e = 10`, both loaded; both files have been edited, the events arrived as `e.s`, `b.s`
+(the sort then yields `b` before `e`) -/
+def exFlat : RSt :=
+  { graph := (Graph.insertAsset [] (.asset ke) [.file "e" "s"]).insertAsset (.asset kb) [.file "b" "s"],
+    toReload := [.file "e" "s", .file "b" "s"] }
+
+theorem exFlat_graphOK : GraphOK exFlat.graph :=
+  C05_insert_keeps_inverse _ (C05_insert_keeps_inverse [] graphOK_nil (.asset ke) [.file "e" "s"]) (.asset kb)
+    [.file "b" "s"]
+
+theorem exEnv_unchanged (b e b' e' : List UInt8) :
+    ∀ id ext, Dep.file id ext ∉ [Dep.file "b" "s", Dep.file "e" "s"] →
+      (exEnv b' e').read 0 id ext = (exEnv b e).read 0 id ext := by
+  intro id ext h
+  simp only [exEnv]
+  split
+  · rename_i h2; exact absurd (by rw [h2.1, h2.2]; exact List.mem_cons_self) h
+  · split
+    · rename_i h2; exact absurd (by rw [h2.1, h2.2]; exact List.mem_cons_of_mem _ List.mem_cons_self) h
+    · rfl
+
+/-- a registered, cached, dynamic asset whose cached value is NOT what re-evaluating its loader
+against the current source and cache returns -/
+def StaleAt (env : Env) (fuel : Nat) (x : St × RSt) (k : Key) : Prop :=
+  ∃ node c v, x.2.graph.get (.asset k) = some node ∧ node.typed = true ∧ x.1.lookup k = some c ∧ c.dyn = true ∧
+    reloadHit env fuel x.1 k = true ∧ reloadOut env fuel x.1 k = .ok v ∧ v ≠ c.val
+
+theorem StaleAt.not_settled {env : Env} {fuel : Nat} {x : St × RSt} {k : Key} (h : StaleAt env fuel x k) :
+    ¬ Settled env fuel x.1 x.2.graph := by
+  obtain ⟨node, c, v, hg, ht, hc, hd, _, ho, hv⟩ := h
+  intro hs
+  rcases (hs k node c hg ht hc hd).res with ⟨h1, _⟩ | ⟨e, h1, _⟩
+  · rw [ho] at h1; exact hv (by simpa using h1)
+  · rw [ho] at h1; cases h1
+
+def staleAtB (env : Env) (fuel : Nat) (x : St × RSt) (k : Key) : Bool :=
+  match x.2.graph.get (.asset k), x.1.lookup k with
+  | some node, some c =>
+    node.typed && c.dyn && reloadHit env fuel x.1 k &&
+      (match reloadOut env fuel x.1 k with
+       | .ok v => decide (v ≠ c.val)
+       | _ => false)
+  | _, _ => false
+
+theorem staleAt_of_check {env : Env} {fuel : Nat} {x : St × RSt} {k : Key} (h : staleAtB env fuel x k = true) :
+    StaleAt env fuel x k := by
+  unfold staleAtB at h
+  cases hg : x.2.graph.get (.asset k) with
+  | none => rw [hg] at h; cases h
+  | some node =>
+    cases hc : x.1.lookup k with
+    | none => rw [hg, hc] at h; cases h
+    | some c =>
+      rw [hg, hc] at h
+      simp only [Bool.and_eq_true] at h
+      obtain ⟨⟨⟨h1, h2⟩, h3⟩, h4⟩ := h
+      cases ho : reloadOut env fuel x.1 k with
+      | ok v =>
+        rw [ho] at h4
+        exact ⟨node, c, v, hg, h1, hc, h2, h3, ho, by simpa using h4⟩
+      | err e => rw [ho] at h4; cases h4
+      | panicked => rw [ho] at h4; cases h4
+      | diverged => rw [ho] at h4; cases h4
+
+/-- **F-C05e: the statement without `hrewire` is false.** Scripts before: `b = 1`, `e = 10`; after:
+`b = 2 +S0:e`, `e = 20`; both edits notified, events in the order `e.s`, `b.s`. Every hypothesis of
+`C05_pass_converges_partial` except `hrewire` holds, and after the pass `b` holds `12` although
+re-evaluating its loader gives `22`: `b` was rebuilt from the stale `e`, and `e` was reloaded after
+it. (With the events in the other order the pass converges: the outcome depends on the iteration
+order of a hash set.) -/
+theorem C05_full_statement_false_rewire :
+    ∃ (env env' : Env) (fuel : Nat) (s : St) (r : RSt) (changed : List Dep) (rank : Dep → Nat),
+      env.Steady ∧ env'.Steady ∧ SameLoaders env env' ∧ Settled env fuel s r.graph ∧ GraphOK r.graph ∧
+      (∀ a rs b, r.graph.rdepsOf a = some rs → b ∈ rs → rank b < rank a) ∧
+      r.dead = false ∧ r.graph.length + 1 ≤ fuel ∧
+      (∀ id ext, Dep.file id ext ∉ changed → env'.read 0 id ext = env.read 0 id ext) ∧
+      (∀ id, Dep.dir id ∉ changed → env'.readDir 0 id = env.readDir 0 id) ∧
+      (∀ d, d ∈ changed → d ∈ r.toReload) ∧
+      NoMissInPass env' fuel (updateSteps env' fuel s r) ∧
+      ReloadsReturn env' fuel (updateSteps env' fuel s r) ∧
+      ¬ NoRewireOntoPending env' fuel (updateSteps env' fuel s r) ∧
+      StaleAt env' fuel (runUpdate env' fuel s r) kb ∧
+      (runUpdate env' fuel s r).1.lookup kb = some ⟨.int 12, true, 1, true, 1⟩ ∧
+      reloadOut env' fuel (runUpdate env' fuel s r).1 kb = .ok (.int 22) := by
+  have hstale : StaleAt (exEnv [2, 0] [20]) 10 (runUpdate (exEnv [2, 0] [20]) 10 (exSt 1 10) exFlat) kb :=
+    staleAt_of_check (by decide)
+  have hS := exEnv_steady [1] [10]
+  have hS' := exEnv_steady [2, 0] [20]
+  have hL := exEnv_same [1] [10] [2, 0] [20]
+  have hset : Settled (exEnv [1] [10]) 10 (exSt 1 10) exFlat.graph := settled_of_check (by decide)
+  have hrank : ∀ a rs b, exFlat.graph.rdepsOf a = some rs → b ∈ rs → exRank b < exRank a :=
+    rank_of_entries (by decide)
+  have hfile := exEnv_unchanged [1] [10] [2, 0] [20]
+  have hnot : ∀ d, d ∈ [Dep.file "b" "s", Dep.file "e" "s"] → d ∈ exFlat.toReload := by decide
+  have hmiss : NoMissInPass (exEnv [2, 0] [20]) 10 (updateSteps (exEnv [2, 0] [20]) 10 (exSt 1 10) exFlat) :=
+    noMiss_of_check (by decide)
+  have hret : ReloadsReturn (exEnv [2, 0] [20]) 10 (updateSteps (exEnv [2, 0] [20]) 10 (exSt 1 10) exFlat) :=
+    reloadsReturn_of_check (by decide)
+  refine ⟨exEnv [1] [10], exEnv [2, 0] [20], 10, exSt 1 10, exFlat, [.file "b" "s", .file "e" "s"], exRank,
+    hS, hS', hL, hset, exFlat_graphOK, hrank, rfl, by decide, hfile, fun _ _ => rfl, hnot, hmiss, hret, ?_,
+    hstale, by decide, by decide⟩
+  intro hrew
+  exact hstale.not_settled
+    (C05_pass_converges_partial _ _ 10 _ _ _ hS hS' hL hset exFlat_graphOK hrank rfl (by decide) hfile
+      (fun _ _ => rfl) (fun d hd _ => hnot d hd) hmiss hret hrew).1
+
+def kn : Key := ⟨0, "n"⟩
+
+/-- **F-C05d: the statement without `hmiss` is false.** Scripts before: `b = 1`, `e = 10`, and
+`n = 0 +S0:e` on disk but never loaded; after: `b = 2 +S0:n`, `e = 20`; both edits notified, events
+in the order `e.s`, `b.s`. Every hypothesis of `C05_pass_converges_partial` except `hmiss` holds for
+the pass `hot_reload` runs (no pending messages, local mode). The reload of `b` loads `n` for the
+first time, from the stale `e`; `e` is reloaded afterwards; `n` is not in the list (it did not exist
+when the list was sorted). After `hot_reload` returns `n` is registered and holds `10` although
+re-evaluating its loader gives `20`. -/
+theorem C05_full_statement_false_miss :
+    ∃ (env env' : Env) (fuel : Nat) (s : St) (r : RSt) (changed : List Dep) (rank : Dep → Nat),
+      env.Steady ∧ env'.Steady ∧ SameLoaders env env' ∧ Settled env fuel s r.graph ∧ GraphOK r.graph ∧
+      (∀ a rs b, r.graph.rdepsOf a = some rs → b ∈ rs → rank b < rank a) ∧
+      r.dead = false ∧ r.graph.length + 1 ≤ fuel ∧
+      (∀ id ext, Dep.file id ext ∉ changed → env'.read 0 id ext = env.read 0 id ext) ∧
+      (∀ id, Dep.dir id ∉ changed → env'.readDir 0 id = env.readDir 0 id) ∧
+      (∀ d, d ∈ changed → d ∈ r.toReload) ∧
+      s.out = [] ∧ r.static_ = false ∧
+      ¬ NoMissInPass env' fuel (updateSteps env' fuel s r) ∧
+      ReloadsReturn env' fuel (updateSteps env' fuel s r) ∧
+      NoRewireOntoPending env' fuel (updateSteps env' fuel s r) ∧
+      StaleAt env' fuel (hotReload env' fuel s r) kn ∧
+      (hotReload env' fuel s r).1.lookup kn = some ⟨.int 10, true, 0, false, 2⟩ ∧
+      reloadOut env' fuel (hotReload env' fuel s r).1 kn = .ok (.int 20) := by
+  refine ⟨exEnv [1] [10], exEnv [2, 1] [20], 10, exSt 1 10, exFlat, [.file "b" "s", .file "e" "s"], exRank,
+    exEnv_steady _ _, exEnv_steady _ _, exEnv_same _ _ _ _, settled_of_check (by decide), exFlat_graphOK,
+    rank_of_entries (by decide), rfl, by decide, exEnv_unchanged _ _ _ _, fun _ _ => rfl, by decide, rfl, rfl,
+    fun h => absurd (noMiss_check_of h) (by decide), reloadsReturn_of_check (by decide),
+    noRewire_of_check (by decide), staleAt_of_check (by decide), by decide, by decide⟩
 
 /-! Non-vacuity -/
 example : GraphOK (Graph.insertAsset [] (.asset ⟨0, "a"⟩) [.file "a" "s"]) :=
